@@ -358,7 +358,7 @@ pub fn run(tier: Tier, _part: bool) -> i32 {
     rep.set("deviation_bound_max", json!(tot.max_bound));
     rep.set("evaluations", json!(tot.execs));
     rep.set("distinct_nontrivial", json!(tot.with_switch));
-    rep.set("rule", json!("one evaluation = one complete schedule (<= bound deviations) of registering/sending/dropping tasks against the real router thread; routes: callback with drop guard or crossbeam forwarding, 0-2 messages queued before registration, 0-2 after, registered from the main task or a helper, callbacks that themselves perform a visible operation; plus quiet bursts of 9/12/33 registrations, a 40+10 / 0+50 backlog, a backlog on the newer route first then the older one, and six registering tasks (wide scenarios count every non-default choice as a deviation)"));
+    rep.set("rule", json!("one evaluation = one complete schedule (<= bound deviations) of registering/sending/dropping tasks against the real router thread; routes: callback with drop guard or crossbeam forwarding, 0-2 messages queued before registration, 0-2 after, registered from the main task or a helper, callbacks that themselves perform a visible operation; plus quiet bursts of 9/12/33 registrations, a 40+10 / 0+50 backlog, a backlog on the newer route first then the older one, and six registering tasks (wide scenarios count every non-default choice as a deviation); schedules are distinct by construction (the depth-first search never repeats a choice sequence) and a schedule counts as non-trivial when it contains at least one context switch; enumerated cases are distinct by construction"));
     rep.assume("router queue operations are paired with a system call inside one critical section, so system-call/futex granularity covers its interleavings");
     rep.assume("the proxy is leaked at the end of each execution (stopping a router is C17)");
     rep.finish()
